@@ -804,7 +804,7 @@ func cmdRun(args []string) {
 		rec record
 	}
 	var viols []viol
-	var infra []string
+	var infra, stallNotes []string
 	for w, r := range results {
 		for _, rec := range r.records {
 			a.add(rec)
@@ -824,8 +824,23 @@ func cmdRun(args []string) {
 			if len(tail) > 6000 {
 				tail = tail[:3000] + "\n...\n" + tail[len(tail)-3000:]
 			}
-			if p.CrashIsViolation && r.lastBegin != nil {
-				if v := crashViolation(b, bin, p, seed, *tier, r); v != nil {
+			if r.lastBegin != nil {
+				// reproduce or ignore, for dead and stuck workers too: the scenario of the interrupted run is
+				// regenerated and replayed in a fresh process. If that process dies or stalls as well, the
+				// death is a function of the scenario (a violation for the properties about survival,
+				// otherwise a problem of the machinery); if it completes, the first death was not (a loaded
+				// machine, a wedge that depends on something outside the seed) and the only loss is the rest of
+				// that worker's share of the runs.
+				v, survived := crashViolation(b, bin, p, seed, *tier, r)
+				if survived != nil {
+					a.add(*survived)
+					if survived.Outcome != nil && survived.Outcome.Violation != nil {
+						viols = append(viols, viol{*survived})
+					}
+					stallNotes = append(stallNotes, fmt.Sprintf("worker %d exited with code %d%s; the run completed when replayed in a fresh process", w, r.exitCode, where))
+					continue
+				}
+				if v != nil && p.CrashIsViolation {
 					viols = append(viols, viol{*v})
 					continue
 				}
@@ -922,6 +937,10 @@ func cmdRun(args []string) {
 	reported := map[string]bool{}
 	knownSeen := map[string]bool{}
 	var unrepro []string
+	for _, n := range stallNotes {
+		unrepro = append(unrepro, n)
+		fmt.Fprintf(os.Stderr, "vcheck: UNREPRODUCED (not reported): %s\n", n)
+	}
 	sort.Slice(viols, func(i, j int) bool { return viols[i].rec.Run < viols[j].rec.Run })
 	for _, v := range viols {
 		key := v.rec.Outcome.Violation.Class + "|" + v.rec.Outcome.Violation.Sig
@@ -1002,15 +1021,18 @@ func crashSig(stderr string, exitCode int) (string, string) {
 
 // crashViolation regenerates the scenario of the run a worker died in, replays it in a fresh process and,
 // if that process dies as well, returns a synthetic violation record (nil: not reproducible -> infra).
-func crashViolation(b *builder, bin string, p *propInfo, seed uint64, tier string, r workerResult) *record {
+func crashViolation(b *builder, bin string, p *propInfo, seed uint64, tier string, r workerResult) (died *record, survived *record) {
 	g := runWorker(bin, job{Mode: "gen", Property: p.ID, Seed: seed, Start: r.lastBegin.Run, Tier: tier}, b.scratch, fmt.Sprintf("gen%d", r.lastBegin.Run), 60*time.Second)
 	if len(g.records) == 0 || len(g.records[0].Scenario) == 0 {
-		return nil
+		return nil, nil
 	}
 	scen := g.records[0].Scenario
 	rr := runWorker(bin, job{Mode: "replay", Property: p.ID, Scenario: scen}, b.scratch, fmt.Sprintf("crash%d", r.lastBegin.Run), 120*time.Second)
-	if rr.done || (len(rr.records) > 0 && rr.records[0].Outcome != nil) {
-		return nil // survived the replay: the death is not a function of the scenario
+	if len(rr.records) > 0 && rr.records[0].Outcome != nil {
+		// survived the replay: the death is not a function of the scenario
+		rec := rr.records[0]
+		rec.Run, rec.RunSeed, rec.Scenario = r.lastBegin.Run, r.lastBegin.RunSeed, scen
+		return nil, &rec
 	}
 	kind, sig := crashSig(rr.stderr, rr.exitCode)
 	rec := record{Kind: "end", Run: r.lastBegin.Run, RunSeed: r.lastBegin.RunSeed, Scenario: scen, Outcome: &outcome{}}
@@ -1020,7 +1042,7 @@ func crashViolation(b *builder, bin string, p *propInfo, seed uint64, tier strin
 		Sig    string `json:"sig"`
 	}{Class: kind, Sig: sig, Detail: "the worker process died while executing this scenario, and died again when the scenario was replayed in a fresh process:\n" + tailStr(rr.stderr)}
 	rec.Outcome.crashed = true
-	return &rec
+	return &rec, nil
 }
 
 type minResult struct {
